@@ -520,7 +520,8 @@ Fixpoint init_bindings (g : bool) (pk : pkind) (s : stmt) {struct s} : list bind
       match names_init [t] with
       | Some ns => map (fun n => mkB n ln BAttr (is_cond pk) g) (plain_names ns)
       | None => [] end
-  | SIf tc body orelse => ibl g PIf body ++ ibl g PIf orelse        (* the parent is a function: no type guard *)
+  | SIf tc body orelse => ibl (g || (is_level pk && tc)) PIf body ++ ibl g PIf orelse
+      (* inside a function body pk is never PScope, so no new type guard arises there *)
   | SBlock ch => ibl g POther ch
   | SSub h body => ibl g (if h then PHandler else POther) body
   | _ => []
@@ -781,6 +782,23 @@ Definition dec_vin (s : sexp) : option vin :=
   end.
 Definition enc_tb (t : tb) : sexp := match t with None => SStr "raises" | Some b => of_bool b end.
 
+Definition dec_okind (s : sexp) : option okind :=
+  match s with
+  | SStr k => if String.eqb k "module" then Some KMod else if String.eqb k "function" then Some KFun
+              else if String.eqb k "class" then Some KCls else if String.eqb k "attribute" then Some KAttr
+              else if String.eqb k "alias" then Some KAlias else None
+  | _ => None
+  end.
+Definition dec_event (s : sexp) : option event :=
+  match s with
+  | SList [SStr "node"; SStr t; ln] => do ln' <- as_nat ln; Some (EvNode t ln')
+  | SList [SStr "inst"; k; SStr n; ln; SStr pp; pf] =>
+      do k' <- dec_okind k; do ln' <- as_nat ln; do pf' <- as_bool pf; Some (EvInst k' n ln' pp pf')
+  | SList [SStr "members"; k; SStr n; ln; SStr p] => do k' <- dec_okind k; do ln' <- as_nat ln; Some (EvMembers k' n ln' p)
+  | SList [SStr "alias"; SStr n; ln; SStr pp; pf] => do ln' <- as_nat ln; do pf' <- as_bool pf; Some (EvAlias n ln' pp pf')
+  | _ => None
+  end.
+
 Definition dec_body (b : sexp) : option (list stmt) := as_list_of (dec_stmt 64) b.
 
 Definition run_C01 (s : sexp) : sexp :=
@@ -807,6 +825,8 @@ Definition run_C01 (s : sexp) : sexp :=
                                              doc_is_exported i; doc_is_wildcard_exposed i; doc_is_public i]);
                          of_bool (vin_consistent i); of_bool (gap_empty_all i); of_bool (gap_no_parent i)]
       | None => bad_input end
-  | SList [SStr "wellbracketed"; evs] => bad_input
+  | SList [SStr "bracket"; evs] =>
+      (* the bracket checker of theorem C01_events_well_bracketed applied to a trace recorded from the implementation *)
+      match as_list_of dec_event evs with Some l => of_bool (well_bracketed l) | None => bad_input end
   | _ => bad_input
   end.
